@@ -289,6 +289,257 @@ theorem quiet3_block_gov_setPower_effect (s : App) (c : CSet) (b : Block) (g : G
     have := g5.allCur w (mem_of_getVal s5 op w h4) haw
     rw [this, cur, powerOf, htok]
 
+/-! ### RemoveValidator inside an executed proposal -/
+
+theorem runTx_keyFrame3 (s : App) (c : CSet) (incs : List (Signer × Nat)) (tx : Tx) (m : M2 s c) (q : QuietTx3 s incs tx) :
+    KeyFrame s (runTx genEnv s incs tx).2.1 := by
+  rcases q with q | hfail | q
+  · exact runTx_keyFrame s c incs tx m q
+  · unfold runTx at hfail ⊢
+    split
+    · exact KeyFrame.rfl' s
+    · rename_i hseq
+      simp only [hseq, ↓reduceIte] at hfail
+      cases ha : Ante.run genEnv.ante genEnv.limiter s.height tx.msgs with
+      | some e => exact KeyFrame.rfl' s
+      | none =>
+        simp only [ha] at hfail ⊢
+        cases hh : handleList genEnv.lim s tx.signer tx.msgs with
+        | ok s' => simp [hh] at hfail
+        | err e => exact KeyFrame.rfl' s
+        | unknown => exact KeyFrame.rfl' s
+  · unfold runTx
+    split
+    · exact KeyFrame.rfl' s
+    · cases ha : Ante.run genEnv.ante genEnv.limiter s.height tx.msgs with
+      | some e => exact KeyFrame.rfl' s
+      | none =>
+        simp only
+        have hlim : genEnv.lim = genLimitFacts := rfl
+        cases hh : handleList genEnv.lim s tx.signer tx.msgs with
+        | ok s' => rw [hlim] at hh; exact handleList_keyFrame c tx.signer tx.msgs s s' m q hh
+        | err e => exact KeyFrame.rfl' s
+        | unknown => exact KeyFrame.rfl' s
+
+theorem runTxs_keyFrame3 (c : CSet) : ∀ (txs : List Tx) (s : App) (incs : List (Signer × Nat)) (acc : List TxR),
+    M2 s c → QuietTxs3 txs s incs → KeyFrame s (runTxs genEnv txs s incs acc).2
+  | [], s, _, _, _, _ => by simp only [runTxs]; exact KeyFrame.rfl' s
+  | tx :: rest, s, incs, acc, m, q => by
+    unfold runTxs
+    exact (runTx_keyFrame3 s c incs tx m q.1).trans' (runTxs_keyFrame3 c rest _ _ _ (runTx_M3 s c incs tx m q.1) q.2)
+
+/-- a list of messages of the class that goes through, with RemoveValidator(op) at some position: when the list is done
+    the record of `op` is `Gone`, under the consensus key it had when the list began -/
+theorem handleList_remove_gone (c : CSet) (sg : Signer) (op : Nat) (mpost : List Msg) :
+    ∀ (mpre : List Msg) (s s' : App) (v : Val), M2 s c → QuietMsgList s sg (mpre ++ .remove (some op) :: mpost) →
+      s.getVal op = some v →
+      handleList genLimitFacts s sg (mpre ++ .remove (some op) :: mpost) = .ok s' →
+      ∃ w, s'.getVal op = some w ∧ Gone w ∧ w.key = v.key
+  | [], s, s', v, m, q, hv, h => by
+    simp only [List.nil_append, handleList] at q h
+    cases hr : handle genLimitFacts s sg (.remove (some op)) with
+    | ok s1 =>
+      rw [hr] at h
+      have hok : handleOk s sg (.remove (some op)) = true := by unfold handleOk; rw [hr]
+      have hcond : ∃ v0, s.getVal op = some v0 ∧ powerOf v0.tokens > 0 ∧ v0.jailed = false ∧ op ∉ s.updated := by
+        rcases q.1 with ⟨_, hnr, _⟩ | ⟨op', p', u', _, hm, _⟩ | ⟨op', hm, hq⟩ | ⟨a, hm⟩ | ⟨tg, hm⟩ | ⟨pa, hm⟩
+        · exact absurd rfl (hnr op)
+        · cases hm
+        · injection hm with h1
+          injection h1 with h1
+          subst h1
+          obtain ⟨v0, hv0, hpos, hnj, hd3, _⟩ := hq hok
+          exact ⟨v0, hv0, hpos, hnj, hd3⟩
+        · cases hm
+        · cases hm
+        · cases hm
+      obtain ⟨v0, hv0, hpos, hnj, hd3⟩ := hcond
+      rw [hv] at hv0; injection hv0 with hv0; subst hv0
+      have hrm : s.removeMsg sg (some op) = .ok s1 := by
+        simp only [handle] at hr
+        cases hx : s.removeMsg sg (some op) with
+        | error e => rw [hx] at hr; simp only [liftE] at hr; cases hr
+        | ok s2 => rw [hx] at hr; simp only [liftE] at hr; cases hr; rfl
+      obtain ⟨_, hself⟩ := keyFrame_remove s s1 c op v m (removeMsg_core s s1 sg op hrm) hv hpos hnj hd3
+      have hav : Active v := by
+        rcases m.st.cls v (mem_of_getVal s op v hv) with ha | hg | hu | hj
+        · exact ha
+        · rw [hg.2.2.1] at hpos; simp [powerOf] at hpos
+        · rw [hu.2.2.1] at hpos; simp [powerOf] at hpos
+        · rw [hj.1] at hnj; cases hnj
+      have hgw : Gone (emptied v) := ⟨rfl, hav.2.1, rfl, rfl⟩
+      have m1 := handle_M2 s s1 c sg _ m q.1 hr
+      obtain ⟨w2, hw2, _, hg2, _⟩ := handleList_keyFrame c sg mpost s1 s' m1 (q.2 s1 hr) h op (emptied v) hself
+      exact ⟨emptied v, by rw [← hg2 hgw]; exact hw2, hgw, rfl⟩
+    | err e => rw [hr] at h; cases h
+    | unknown => rw [hr] at h; cases h
+  | msg :: mpre, s, s', v, m, q, hv, h => by
+    simp only [List.cons_append, handleList] at q h
+    cases hr : handle genLimitFacts s sg msg with
+    | ok s1 =>
+      rw [hr] at h
+      obtain ⟨v1, hv1, hk1, _, _⟩ := handle_keyFrame s s1 c sg msg m q.1 hr op v hv
+      obtain ⟨w, hw, hgw, hkw⟩ := handleList_remove_gone c sg op mpost mpre s1 s' v1 (handle_M2 s s1 c sg msg m q.1 hr) (q.2 s1 hr) hv1 h
+      exact ⟨w, hw, hgw, hkw.trans hk1⟩
+    | err e => rw [hr] at h; cases h
+    | unknown => rw [hr] at h; cases h
+
+/-- the proposal at position `gpre.length` went through and carries RemoveValidator(op) at some position ⇒ when x/gov's
+    EndBlocker is done the record of `op` is `Gone`, under the key it had before -/
+theorem govFold_remove_effect (c : CSet) (sg : Signer) (op : Nat) (mpre mpost : List Msg) (gpost : List (List Msg)) :
+    ∀ (gpre : List (List Msg)) (s : App) (acc : List TxR) (v : Val),
+      M2 s c → QuietGov2 sg (gpre ++ (mpre ++ .remove (some op) :: mpost) :: gpost) s → s.getVal op = some v →
+      (runGov genEnv sg (gpre ++ (mpre ++ .remove (some op) :: mpost) :: gpost) s acc).1[acc.length + gpre.length]? = some .ok →
+      ∃ w, (govFold sg (gpre ++ (mpre ++ .remove (some op) :: mpost) :: gpost) s).getVal op = some w ∧ Gone w ∧ w.key = v.key
+  | [], s, acc, v, m, q, hv, hok => by
+    simp only [List.nil_append] at q hok ⊢
+    have hlim : genEnv.lim = genLimitFacts := rfl
+    unfold govFold
+    simp only [runGov, hlim, List.length_nil, Nat.add_zero] at hok
+    have q1 := q.1
+    unfold QuietMsgs2 govOk at q1
+    cases hr : handleList genLimitFacts s sg (mpre ++ .remove (some op) :: mpost) with
+    | ok s1 =>
+      rw [hr] at q1
+      have hgs : govStep s sg (mpre ++ .remove (some op) :: mpost) = s1 := by unfold govStep; rw [hr]
+      obtain ⟨w, hw, hgw, hkw⟩ := handleList_remove_gone c sg op mpost mpre s s1 v m (q1 rfl) hv hr
+      have m1 : M2 s1 c := by rw [← hgs]; exact govStep_M2 s c sg _ m q.1
+      rw [hgs]
+      have q2 := q.2
+      rw [hgs] at q2
+      obtain ⟨w2, hw2, _, hg2, _⟩ := govFold_keyFrame c sg gpost s1 m1 q2 op w hw
+      exact ⟨w, by rw [← hg2 hgw]; exact hw2, hgw, hkw⟩
+    | err e =>
+      exfalso
+      rw [hr] at hok
+      simp only at hok
+      obtain ⟨X, hX⟩ := runGov_results genEnv sg gpost s (acc ++ [.unknown])
+      rw [hX, List.append_assoc, List.getElem?_append_right (Nat.le_refl _)] at hok
+      simp at hok
+    | unknown =>
+      exfalso
+      rw [hr] at hok
+      simp only at hok
+      obtain ⟨X, hX⟩ := runGov_results genEnv sg gpost s (acc ++ [.unknown])
+      rw [hX, List.append_assoc, List.getElem?_append_right (Nat.le_refl _)] at hok
+      simp at hok
+  | ms :: gpre, s, acc, v, m, q, hv, hok => by
+    simp only [List.cons_append] at q hok ⊢
+    have hlim : genEnv.lim = genLimitFacts := rfl
+    unfold govFold
+    simp only [runGov, hlim] at hok
+    have m1 := govStep_M2 s c sg ms m q.1
+    obtain ⟨v1, hv1, hk1, _, _⟩ := govStep_keyFrame s c sg ms m q.1 op v hv
+    have q2 := q.2
+    cases hr : handleList genLimitFacts s sg ms with
+    | ok s1 =>
+      rw [hr] at hok
+      simp only at hok
+      have hidx : (acc ++ [TxR.ok]).length + gpre.length = acc.length + (ms :: gpre).length := by simp; omega
+      obtain ⟨w, hw, hgw, hkw⟩ := govFold_remove_effect c sg op mpre mpost gpost gpre _ (acc ++ [.ok]) v1 m1 q2 hv1
+        (by rw [hidx]; have : govStep s sg ms = s1 := by unfold govStep; rw [hr]
+            rw [this]; exact hok)
+      exact ⟨w, hw, hgw, hkw.trans hk1⟩
+    | err e =>
+      rw [hr] at hok
+      simp only at hok
+      have hidx : (acc ++ [TxR.unknown]).length + gpre.length = acc.length + (ms :: gpre).length := by simp; omega
+      obtain ⟨w, hw, hgw, hkw⟩ := govFold_remove_effect c sg op mpre mpost gpost gpre _ (acc ++ [.unknown]) v1 m1 q2 hv1
+        (by rw [hidx]; have : govStep s sg ms = s := by unfold govStep; rw [hr]
+            rw [this]; exact hok)
+      exact ⟨w, hw, hgw, hkw.trans hk1⟩
+    | unknown =>
+      rw [hr] at hok
+      simp only at hok
+      have hidx : (acc ++ [TxR.unknown]).length + gpre.length = acc.length + (ms :: gpre).length := by simp; omega
+      obtain ⟨w, hw, hgw, hkw⟩ := govFold_remove_effect c sg op mpre mpost gpost gpre _ (acc ++ [.unknown]) v1 m1 q2 hv1
+        (by rw [hidx]; have : govStep s sg ms = s := by unfold govStep; rw [hr]
+            rw [this]; exact hok)
+      exact ⟨w, hw, hgw, hkw.trans hk1⟩
+
+/-- **the requested effect of a RemoveValidator executed by a passed governance proposal**: from every `G2` state, for
+    every quiet block (governance included): if the proposal at position `gpre.length` went through and carries
+    `RemoveValidator(op)` at any position of its message list, then after the block CometBFT's set holds no entry under the
+    key `op`'s record had before the block, and `op` has no record any more or an unbonding one for which the power query
+    answers 0 -/
+theorem quiet3_block_gov_remove_effect (s : App) (c : CSet) (b : Block) (g : G2 s c) (q : QuietBlock3 s c b)
+    (gpre gpost : List (List Msg)) (mpre mpost : List Msg) (op : Nat) (v : Val)
+    (hb : b.gov = gpre ++ (mpre ++ .remove (some op) :: mpost) :: gpost) (hv : s.getVal op = some v) :
+    ∃ o s' c', block genEnv s b = .ok (o, s') ∧ Comet.applyChangeSet c o.updates = .ok c' ∧ G2 s' c' ∧
+      (o.txrs[b.txs.length + gpre.length]? = some .ok →
+        alookup v.key c' = none ∧
+        (s'.getVal op = none ∨ ∃ w, s'.getVal op = some w ∧ Unb w ∧ w.key = v.key ∧ s'.queryPower (some op) = some 0)) := by
+  obtain ⟨s1, hp, sh⟩ := q.begin_
+  have g0 : B2 { s with height := s.height + 1, time := s.time + b.dt } c :=
+    B2_frame s c (B2_of_G2 s c g) s.infos s.bitmap (s.height + 1) (s.time + b.dt) g.st.infos
+  have g1 : B2 s1 c := punish_B2 _ s1 c g0 g.noLeaving sh
+  obtain ⟨s2, hpb, g2, _, hvals2, _, _⟩ := poaBegin_G2 genEnv.lim s1 c g1
+  have hbegin : beginState genEnv s b = .ok s2 := by rw [beginState_of_punish s s1 b hp]; exact hpb
+  -- the record of `op` after the BeginBlockers: same key
+  obtain ⟨v2, hv2, hk2⟩ : ∃ v2, s2.getVal op = some v2 ∧ v2.key = v.key := by
+    obtain ⟨w, hw, hk, _⟩ := sh.recs v (mem_of_getVal s op v hv)
+    rw [getVal_op _ _ _ hv] at hw
+    exact ⟨w, by rw [getVal_congr s2 s1 hvals2]; exact hw, hk⟩
+  have m3 := runTxs_M3 c b.txs s2 [] [] g2.toM2 (q.txs s2 hbegin)
+  obtain ⟨v3, hv3, hk3, _, _⟩ := runTxs_keyFrame3 c b.txs s2 [] [] g2.toM2 (q.txs s2 hbegin) op v2 hv2
+  have qg := q.gov s2 hbegin
+  have m4 := govFold_M2 c (govSigner b) b.gov _ m3 qg
+  have f4 := q.fits s2 hbegin
+  obtain ⟨ups, s5, c', he, hc, hag, g5, _, _, _, _, hrec, _⟩ := endBlock_G2 _ c m4 f4
+  refine ⟨⟨(runGov genEnv (govSigner b) b.gov (runTxs genEnv b.txs s2 [] []).2 (runTxs genEnv b.txs s2 [] []).1).1, ups⟩, s5, c', ?_, hc, g5, ?_⟩
+  · unfold block
+    rw [beforeEnd_eq_gov, hbegin]
+    simp only
+    rw [show (runGov genEnv (govSigner b) b.gov (runTxs genEnv b.txs s2 [] []).2 (runTxs genEnv b.txs s2 [] []).1) =
+        ((runGov genEnv (govSigner b) b.gov (runTxs genEnv b.txs s2 [] []).2 (runTxs genEnv b.txs s2 [] []).1).1,
+         govFold (govSigner b) b.gov (runTxs genEnv b.txs s2 [] []).2) from by
+      rw [← runGov_state (govSigner b) b.gov (runTxs genEnv b.txs s2 [] []).2 (runTxs genEnv b.txs s2 [] []).1]]
+    simp only [he]
+  · intro hok
+    simp only at hok
+    rw [hb] at hok qg
+    have hlen : (runTxs genEnv b.txs s2 [] []).1.length = b.txs.length := by rw [runTxs_length]; simp
+    rw [← hlen] at hok
+    obtain ⟨w, hw, hgw, hkw'⟩ := govFold_remove_effect c (govSigner b) op mpre mpost gpost gpre _ _ v3 m3 qg hv3 hok
+    have hkw : w.key = v.key := hkw'.trans (hk3.trans hk2)
+    rw [← hb] at hw
+    have hwm := mem_of_getVal _ op w hw
+    have hviews := G2_views s5 c' g5
+    constructor
+    · cases hcq : alookup v.key c' with
+      | none => rfl
+      | some p =>
+        exfalso
+        obtain ⟨x, hx, hxk, hxa⟩ := hviews.2 v.key p hcq
+        have hgx := mem_vals_getVal s5 g5.st.sorted x hx
+        obtain ⟨v0, hv0, _, _, hbond⟩ := hrec x.op x hgx
+        have e := hbond hxa.1
+        have hv0m := mem_of_getVal _ x.op v0 hv0
+        have : v0 = w := m4.st.keys v0 hv0m w hwm (by rw [← e, hxk, hkw])
+        rw [e, this] at hxa
+        exact active_not_gone w hxa hgw
+    · cases hg5 : s5.getVal op with
+      | none => exact Or.inl rfl
+      | some w' =>
+        right
+        obtain ⟨v0, hv0, hk, hj, hbond⟩ := hrec op w' hg5
+        rw [hw] at hv0; injection hv0 with hv0
+        have hw'm := mem_of_getVal s5 op w' hg5
+        have hu : Unb w' := by
+          rcases g5.st.cls w' hw'm with a | a | a | a
+          · exfalso
+            have := hbond a.1
+            rw [this, ← hv0] at a
+            exact active_not_gone w a hgw
+          · exact absurd (Or.inl a) (g5.noLeaving w' hw'm)
+          · exact a
+          · exfalso
+            rw [a.1, ← hv0, hgw.2.1] at hj; cases hj
+        refine ⟨w', rfl, hu, by rw [hk, ← hv0]; exact hkw, ?_⟩
+        have hw'op := getVal_op _ _ _ hg5
+        have hg5' : s5.getVal w'.op = some w' := by rw [hw'op]; exact hg5
+        simp [queryPower, lastPower, ← hw'op, hg5', g5.st.lastU w' hw'm hu]
+
 /-- the governance SetPower clause of one block and its step -/
 def GovSetClause (b : Block) (st : Step) : Prop :=
   b.govIsAdmin = true → ∀ (gpre gpost : List (List Msg)) (mpre mpost : List Msg) (op p : Nat) (u : Bool),
